@@ -135,6 +135,7 @@ const (
 	configGroupsCoordinatorTimeout = "groups.coordinator.timeout"
 
 	configTelemetryEnabled         = "telemetry.enabled"
+	envTelemetryEnabled            = "LIFTBRIDGE_TELEMETRY_ENABLED"
 	configTelemetryIntervalSeconds = "telemetry.interval.seconds"
 )
 
@@ -506,6 +507,9 @@ func NewConfig(configFile string) (*Config, error) { // nolint: gocyclo
 
 	// Return default config if config file is not given.
 	if configFile == "" {
+		if err := applyTelemetryEnv(config); err != nil {
+			return nil, err
+		}
 		return config, nil
 	}
 
@@ -634,6 +638,9 @@ func NewConfig(configFile string) (*Config, error) { // nolint: gocyclo
 		return nil, err
 	}
 	parseTelemetryConfig(config, v)
+	if err := applyTelemetryEnv(config); err != nil {
+		return nil, err
+	}
 
 	// If SegmentMaxAge is not set, default it to the retention time.
 	if config.Streams.SegmentMaxAge == 0 {
@@ -872,6 +879,22 @@ func parseGroupsConfig(config *Config, v *viper.Viper) error { // nolint: gocycl
 		config.Groups.CoordinatorTimeout = v.GetDuration(configGroupsCoordinatorTimeout)
 	}
 
+	return nil
+}
+
+// applyTelemetryEnv applies the LIFTBRIDGE_TELEMETRY_ENABLED environment
+// variable, the documented way to opt out of telemetry without a config file.
+// It takes precedence over the config file.
+func applyTelemetryEnv(config *Config) error {
+	value, ok := os.LookupEnv(envTelemetryEnabled)
+	if !ok {
+		return nil
+	}
+	enabled, err := strconv.ParseBool(value)
+	if err != nil {
+		return fmt.Errorf("Invalid value %q for %s", value, envTelemetryEnabled)
+	}
+	config.Telemetry.Enabled = enabled
 	return nil
 }
 
